@@ -21,7 +21,8 @@ namespace Intern
 `fresh id`: a private allocation (the `id`-th one made by this codec) — what the
 conversion `string(data)` yields, it always copies.
 `view off len`: the string header points into the caller's input buffer at
-`[off, off+len)` — what an `unsafe.String(&data[0], len(data))` would yield.
+`[off, off+len)` — what a zero-copy conversion (a string header over `&data[0]`)
+would yield.
 The codec never builds a `view`; the constructor exists so that "never
 references the caller's buffer" is a statement that can fail. -/
 inductive Prov where
@@ -304,6 +305,12 @@ def runThread : Nat → State → Nat → State
       match s'.threads[i]? with
       | some t => if t.pc = .idle then s' else runThread fuel s' i
       | none => s'
+
+/-- thread `i` performs `n` whole `Read` calls without being interrupted
+(a `Read` takes at most 9 steps). -/
+def runReads : Nat → State → Nat → State
+  | 0, s, _ => s
+  | n + 1, s, i => runReads n (runThread 9 s i) i
 
 /-- the transition relation in rule form (equivalent to `stepThreadL`, see
 `Proofs/Intern.lean: step_iff`). -/
